@@ -710,7 +710,11 @@ def run(ctx, rep):
             covered = set()
             for nm in builtin_handled:
                 covered |= COVER[nm]
-            missing = NEED - covered
+            need = NEED
+            if f.cls and any(k.endswith(".Lexer") or k == "Lexer" for k in [b for c_ in ix.mro(f.cls) for b in ([c_] + list(getattr(ix.classes.get(c_), "bases", []) or []))]):
+                # a lexer rule converts the matched text: a str, so only ValueError is possible
+                need = {"ValueError"}
+            missing = need - covered
             loc = f"{f.path}:{tr_.lineno}"
             if missing:
                 rep.violation("C16.13", cons, f"the handler ({', '.join(sorted(names))}) around `{ast.unparse(conv[0])}` expects the conversion to fail but does not cover {', '.join(sorted(missing))}: e.g. an out-of-range float literal (1.0e999 lexes as inf) makes int() raise OverflowError, which escapes the parser", loc, witness="let big 1.0e999")
@@ -766,48 +770,8 @@ def run(ctx, rep):
     rep.analysed["context_entity_attribute_reads"] = n14
 
     # ------------------------------------------------------------ C16.15
-    rep.rule("C16.15", "a visitor whose `while` loop waits for its handlers to advance the walk: a handler that delegates inside `for .. in range(n)` treats n <= 0 explicitly (a zero-trip loop advances nothing and the waiting loop never ends)", floor=1)
-    n15 = 0
-    for cq, ci in ix.classes.items():
-        if not T.is_visitor(cq) or any(cq.startswith(m) for m in EXCLUDE):
-            continue
-        waits = []
-        for mname, fi in ci.methods.items():
-            for st in iter_stmts(fi.body):
-                if isinstance(st, ast.While) and any(isinstance(c, ast.Call) and isinstance(c.func, ast.Attribute) and c.func.attr == "visit" for c in ast.walk(st)):
-                    # the condition is visitor state (self.<attr>)
-                    if any(isinstance(m, ast.Attribute) and isinstance(m.value, ast.Name) and m.value.id == fi.params[0] for m in ast.walk(st.test)):
-                        waits.append((fi, st))
-        if not waits:
-            continue
-        for mname, fi in ci.methods.items():
-            if not mname.startswith("visit_"):
-                continue
-            for st in iter_stmts(fi.body):
-                if not (isinstance(st, ast.For) and isinstance(st.iter, ast.Call) and isinstance(st.iter.func, ast.Name) and st.iter.func.id == "range" and st.iter.args):
-                    continue
-                if not any(isinstance(c, ast.Call) and isinstance(c.func, ast.Attribute) and c.func.attr == "visit" for c in ast.walk(st)):
-                    continue
-                n15 += 1
-                count = ast.unparse(st.iter.args[-1] if len(st.iter.args) == 1 else st.iter.args[1])
-                cons = construct_of(fi, f"zero-trip:{count}")
-                loc = f"{fi.path}:{st.lineno}"
-                guard = None
-                for g in iter_stmts(fi.body):
-                    if isinstance(g, ast.If) and g.lineno < st.lineno:
-                        for c in ast.walk(g.test):
-                            if isinstance(c, ast.Compare) and len(c.ops) == 1:
-                                l, r = ast.unparse(c.left), ast.unparse(c.comparators[0])
-                                if (l == count and r in ("0", "1") and isinstance(c.ops[0], (ast.LtE, ast.Lt, ast.Eq))) or (r == count and l in ("0", "1") and isinstance(c.ops[0], (ast.GtE, ast.Gt, ast.Eq))):
-                                    guard = g
-                            if isinstance(c, ast.UnaryOp) and isinstance(c.op, ast.Not) and ast.unparse(c.operand) == count:
-                                guard = g
-                if guard is not None:
-                    rep.ok("C16.15", cons, f"`{ast.unparse(guard.test)}` handles the zero-trip case before the loop", loc)
-                else:
-                    w = waits[0]
-                    rep.violation("C16.15", cons, f"`{ast.unparse(st.iter)}` may run zero times; then nothing advances the state that `while {ast.unparse(w[1].test)}` in {w[0].name} waits on, and execution never returns", loc, witness="register q[1]\nloop 0 { prepare_all; Px q[0]; measure_all }\nprepare_all\nmeasure_all")
-    rep.analysed["zero_trip_sites"] = n15
+    from .common import check_zero_trip
+    check_zero_trip(ctx, rep, "C16.15", EXCLUDE)
 
     # ------------------------------------------------------------ C16.16
     rep.rule("C16.16", "the process-wide module table (sys.modules) is not left changed by a call: nothing is registered under a name a later absolute import can find, and whatever is evicted comes back when the import fails", floor=2)
@@ -872,6 +836,72 @@ def run(ctx, rep):
             else:
                 rep.violation("C16.16", cons, f"`{ast.unparse(n)}` evicts an imported module and nothing puts it back when the import then fails: `from .numpy usepulses *` raises ImportError and leaves the process without numpy, so the next valid run fails (cannot load module more than once per process)", loc, witness="from .numpy usepulses *")
     rep.analysed["sys_modules_sites"] = n16
+
+    # ------------------------------------------------------------ C16.17
+    rep.rule("C16.17", "every entry point that reaches a recursion cycle (the recursive builder, visitors and alias resolution recurse as deep as the program nests) converts RecursionError to JaqalError in a frame above the cycle", floor=5)
+    import networkx as nx
+    g = T.graph(weak=False)
+    sub = g.subgraph([q for q in ea.reachable if q in g])
+
+    def converts(fi):
+        """The function's own body, or a decorator applied to it, catches RecursionError and raises."""
+        nodes = [fi.node]
+        for d in getattr(fi.node, "decorator_list", []):
+            name = d.id if isinstance(d, ast.Name) else d.attr if isinstance(d, ast.Attribute) else None
+            if name is None:
+                continue
+            r = ix.resolve_name(fi.module, name) if hasattr(ix, "resolve_name") else None
+            cand = [x for x in ix.functions.values() if x.name == name and x.cls is None]
+            for c in cand:
+                nodes.append(c.node)
+        for nd in nodes:
+            for t in ast.walk(nd):
+                if isinstance(t, ast.Try):
+                    for h in t.handlers:
+                        names = set()
+                        if h.type is None:
+                            names.add("BaseException")
+                        else:
+                            for x in (h.type.elts if isinstance(h.type, ast.Tuple) else [h.type]):
+                                names.add(ast.unparse(x).split(".")[-1])
+                        if names & {"RecursionError", "RuntimeError", "Exception", "BaseException"} and any(isinstance(x, ast.Raise) and x.exc is not None for b in h.body for x in ast.walk(b)):
+                            return True
+        return False
+    covered = {q for q in sub.nodes if q in ix.functions and not isinstance(ix.functions[q].node, ast.Lambda) and converts(ix.functions[q])}
+    cyclic = set()
+    for comp in nx.strongly_connected_components(sub):
+        if len(comp) > 1:
+            cyclic |= comp
+    for q in sub.nodes:
+        if sub.has_edge(q, q):
+            cyclic.add(q)
+    rep.analysed["recursive_functions"] = len(cyclic)
+    rep.analysed["recursion_guarded_frames"] = sorted(short(c) for c in covered)
+    for e in entries:
+        cons = construct_of(ix.functions[e], "recursion-guard")
+        if e in covered:
+            rep.ok("C16.17", cons, "the entry point itself converts RecursionError", ix.functions[e].loc())
+            continue
+        seen_, stack_ = {e}, [e]
+        hit = None
+        while stack_ and hit is None:
+            q = stack_.pop()
+            if q in cyclic:
+                hit = q
+                break
+            for nxt in sub.successors(q) if q in sub else []:
+                if nxt in covered or nxt in seen_:
+                    continue
+                seen_.add(nxt)
+                stack_.append(nxt)
+        if hit is None:
+            rep.ok("C16.17", cons, "every recursion cycle reachable from here lies below a frame that converts RecursionError", ix.functions[e].loc())
+        else:
+            rep.violation("C16.17", cons, f"{short(hit)} recurses as deep as the program nests and nothing between this entry point and it converts RecursionError: 200 nested blocks (or a long alias chain) escape as RecursionError instead of JaqalError", ix.functions[e].loc(), witness="register q[2]\n" + "{ <" * 3 + " ... (200 levels) ... " + "> }" * 3)
+
+    # ------------------------------------------------------------ C16.18
+    from .common import check_cached_mutables
+    check_cached_mutables(ctx, rep, "C16.18", ["jaqalpaq"])
 
 
 KNOWN_SUBMODULES = {
